@@ -164,7 +164,7 @@ def check(ctx):
     def run_slice(sl):
         if not sl:
             return 0
-        d = C.Differential(ctx, binary, timeout=1500, project=project)
+        d = C.Differential(ctx, binary, timeout=1500, project=project, confirm=2)
         d.n = 1000 * (slices.index(sl) + 1)
         return d.check(sl, oracle=oracle, label="faults")
     with ThreadPoolExecutor(max_workers=k) as ex:
